@@ -29,7 +29,7 @@ from vlib import f2b, fs2b, b2f, b2fs, ints
 from props import c01
 
 ID = "C08"
-GEN = ["Combinators", "ArrCombinators", "JaxTransforms", "Leaves", "Misc", "Dist", "Params", "Flows"]
+GEN = ["Combinators", "ArrCombinators", "JaxTransforms", "Leaves", "Misc", "Dist", "Params", "Flows", "MergeGen"]
 RULE = ("random expression trees of array bijections (elementwise leaves with per-element non-default parameters, Chain, Invert, "
         "Concatenate and Stack along every valid axis incl. negative, Partial with int/slice/int-array/bool-array/tuple indices, Reshape, "
         "EmbedCondition, Scan, Vmap with mapped or broadcast parameters and mapped/broadcast condition), ranks 0-3, conditional and "
@@ -45,6 +45,7 @@ TRUSTED = c01.TRUSTED + [
     "Scan and Vmap enter the HAND model through their defining equivalences (Chain of unstacked layers / Stack along axis 0 of per-slice bijections); lax.scan and filter_vmap themselves are JAX's",
     "Gen/JaxTransforms.lean: the methods of Scan / Vmap, _filter_scan and the nested closures are REGENERATED from jax_transforms.py (py2meth.py, sheet targets_jaxtr.py); trusted are the sheet's typing (a stacked module = the list of its unstacked layer records; None in a tuple = unit; the int literal 0 of the initial carry = the scalar 0) and the meanings of Model/JaxTrWorld.lean: lax.scan (reference loop, reversed list when reverse=True), eqx.partition/combine on a stacked module, eqx.filter_vmap (per-slice application, outputs stacked) — validated here on real Scan / Vmap objects (tree kinds SCAN / VMAP through the generated methods, op jaxtrvmap, premade flows through Flows.scanOf = generated Scan)",
 ]
+TRUSTED.append("Gen/MergeGen.lean: Chain.__getitem__ / __iter__ / __len__ / merge_chains are REGENERATED from chain.py (py2meth.py, sheet targets_merge.py) and tied by proof to flattening / the Python-sliced chain (Props/C08 section MergeGen); trusted are the sheet's typing and the meanings of Model/MergeWorld.lean (a bijection object = leaf | Chain, isinstance = constructor test, t[i] / t[a:b:k] with Python's negative / clamped bounds, list append / extend, `while` = fuel-bounded iteration proved never to exhaust, Chain(...) = the regenerated Chain.__init__ of Gen/CtorsGen.lean) — validated here on real nested chains (op mgch)")
 ASSUMPTIONS = ["shape algebra theorems (declared shape = jnp.stack/jnp.concatenate shape, negative axes) live in Props/C13 (ArgCheck model) and are re-exported here"]
 TOL = dict(rtol=1e-8, atol=1e-10)
 
@@ -505,6 +506,12 @@ def corr(c, tier, rng, n_trees=None):
         c01.scan_correspondence(c, tier, rng)
         # merge_transforms on nested Transformed (1-3 levels): the generated model of the nest vs the real merged object
         c03.corr_nested(c, tier, rng, n=20 if tier == "quick" else 120)
+        # the REGENERATED Chain.__getitem__ / __len__ / __iter__ / merge_chains (Gen/MergeGen.lean, driver op `mgch`) against real nested
+        # chains: every int index and every small slice incl. negative / out-of-range bounds and steps, merge_chains at depth <= 3;
+        # and the regenerated merge_transforms (which calls the generated merge_chains) on nested Transformed objects
+        from props import mergegen
+        mergegen.corr_chain(c, tier, rng)
+        mergegen.corr_transformed(c, tier, rng, n=12 if tier == "quick" else 80)
         prim_correspondence(c, tier, rng)
         jaxtr_correspondence(c, tier, rng)
         # the Scan inside every premade flow: the generated factory bodies (Scan = generated Chain of the UNSTACKED layers, each with
